@@ -56,7 +56,9 @@ type Term struct {
 	c    uint64 // OpConst: value masked to w bits (Bool: 0/1)
 	name string // OpVar
 	a    [3]*Term
-	n    uint8 // number of args
+	n    uint8  // number of args
+	k0   uint64 // bits known to be 0 (bit-vectors)
+	k1   uint64 // bits known to be 1
 }
 
 func (t *Term) IsConst() bool { return t.op == OpConst }
@@ -119,10 +121,71 @@ func (s *Store) mk(op Op, w uint8, c uint64, name string, args ...*Term) *Term {
 	}
 	t := &Term{op: op, w: w, c: c, name: name, id: int32(len(s.terms)), n: uint8(len(args))}
 	copy(t.a[:], args)
+	knownBits(t)
 	s.terms = append(s.terms, t)
 	s.tab[k] = t
 	return t
 }
+
+// knownBits computes the bits of a bit-vector term that are the same in
+// every model (a cheap abstract interpretation used by the folding rules).
+func knownBits(t *Term) {
+	if t.w == 0 {
+		return
+	}
+	m := mask(t.w)
+	a, b := t.a[0], t.a[1]
+	switch t.op {
+	case OpConst:
+		t.k1 = t.c
+		t.k0 = ^t.c & m
+	case OpBAnd:
+		t.k0 = a.k0 | b.k0
+		t.k1 = a.k1 & b.k1
+	case OpBOr:
+		t.k1 = a.k1 | b.k1
+		t.k0 = a.k0 & b.k0
+	case OpBXor:
+		t.k1 = (a.k1 & b.k0) | (a.k0 & b.k1)
+		t.k0 = (a.k0 & b.k0) | (a.k1 & b.k1)
+	case OpZExt:
+		t.k0 = a.k0 | (m &^ mask(a.w))
+		t.k1 = a.k1
+	case OpSExt:
+		sign := uint64(1) << (a.w - 1)
+		t.k0, t.k1 = a.k0, a.k1
+		if a.k0&sign != 0 {
+			t.k0 |= m &^ mask(a.w)
+		} else if a.k1&sign != 0 {
+			t.k1 |= m &^ mask(a.w)
+		}
+	case OpTrunc:
+		t.k0 = a.k0 & m
+		t.k1 = a.k1 & m
+	case OpShl:
+		if b.op == OpConst && b.c < uint64(t.w) {
+			t.k0 = ((a.k0 << b.c) | ((uint64(1) << b.c) - 1)) & m
+			t.k1 = (a.k1 << b.c) & m
+		}
+	case OpLShr:
+		if b.op == OpConst && b.c < uint64(t.w) {
+			t.k0 = (a.k0 >> b.c) | (m &^ (m >> b.c))
+			t.k1 = a.k1 >> b.c
+		}
+	case OpIte:
+		x, y := t.a[1], t.a[2]
+		t.k0 = x.k0 & y.k0
+		t.k1 = x.k1 & y.k1
+	case OpAdd:
+		if (a.k0|b.k0)&m == m { // no bit position where both may be 1: add == or
+			t.k1 = a.k1 | b.k1
+			t.k0 = a.k0 & b.k0
+		}
+	}
+}
+
+func (t *Term) umax() uint64 { return ^t.k0 & mask(t.w) }
+func (t *Term) umin() uint64 { return t.k1 }
 
 func (s *Store) Const(w uint8, v uint64) *Term {
 	return s.mk(OpConst, w, v&mask(w), "")
@@ -213,6 +276,9 @@ func (s *Store) Eq(a, b *Term) *Term {
 			}
 			return s.Not(a)
 		}
+	}
+	if a.w != 0 && ((a.k1&b.k0)|(a.k0&b.k1)) != 0 {
+		return s.False
 	}
 	// canonical order: constant on the right
 	if a.op == OpConst || (b.op != OpConst && a.id > b.id) {
@@ -454,24 +520,35 @@ func (s *Store) Bin(op Op, a, b *Term) *Term {
 		if a == b {
 			return s.False
 		}
-		if b.op == OpConst && b.c == 0 {
+		if a.umax() < b.umin() {
+			return s.True
+		}
+		if a.umin() >= b.umax() {
 			return s.False
 		}
 	case OpUle:
 		if a == b {
 			return s.True
 		}
-		if a.op == OpConst && a.c == 0 {
+		if a.umax() <= b.umin() {
 			return s.True
+		}
+		if a.umin() > b.umax() {
+			return s.False
 		}
 	case OpSlt:
 		if a == b {
 			return s.False
 		}
-		// (x + c1) < (x + c2) is NOT simplified (overflow), except identical
+		if sign := uint64(1) << (a.w - 1); a.k0&sign != 0 && b.k0&sign != 0 {
+			return s.Bin(OpUlt, a, b)
+		}
 	case OpSle:
 		if a == b {
 			return s.True
+		}
+		if sign := uint64(1) << (a.w - 1); a.k0&sign != 0 && b.k0&sign != 0 {
+			return s.Bin(OpUle, a, b)
 		}
 	}
 	return s.mk(op, rw, 0, "", a, b)
